@@ -600,6 +600,15 @@ pub fn main(args: &[String]) {
             cmds.push(vec![a.as_bytes().to_vec()]);
             cmds.push(vec![b"--isolate".to_vec(), a.as_bytes().to_vec(), b"plain".to_vec()]);
         }
+        // command lines longer than the reader's buffer (16 KiB), made of multi-byte characters in every alignment
+        // relative to the buffer boundaries: a character cut in two by a refill must still come back whole
+        for (ch, width) in [("\u{e9}", 2usize), ("\u{20ac}", 3), ("\u{1f600}", 4)] {
+            for pad in 0..width {
+                let mut a = "a".repeat(pad);
+                a.push_str(&ch.repeat(40000 / width));
+                cmds.push(vec![b"--exclude".to_vec(), a.into_bytes()]);
+            }
+        }
         for c in cmds {
             if !mine() {
                 continue;
